@@ -23,7 +23,8 @@ pub enum Which {
 pub struct Step {
     /// 0 extend the game by `picks`; 1 take back `back` plies then extend; 2 play a-b-a-b shuffles
     /// (repetition pattern) then search; 3 jump to another root (other game, same table);
-    /// 4 ucinewgame (table cleared) then extend
+    /// 4 ucinewgame (table cleared) then extend; 5 forced cycle (perpetual check) then search;
+    /// 6 search the parent of a dead position, then the dead position; 7 stopped search, then its cached descendants
     pub nav: u8,
     pub back: u8,
     pub picks: Vec<Pick>,
@@ -42,8 +43,25 @@ pub struct Hist {
     pub which: Which,
 }
 
+/// positions with a perpetual check: the checked side has a single reply each time
+pub const PERPETUAL: &[&str] = &[
+    "6k1/p5p1/1p6/7Q/8/1P6/P5PP/6K1 w - - 0 1",
+    "6k1/p5pp/1p6/8/7q/1P6/P5P1/6K1 b - - 0 1",
+    "5rk1/5p1p/8/8/8/8/1Q6/K7 w - - 0 1",
+];
+
+/// positions with a mate in one (the mated position becomes an interior node of a search of these)
+pub const MATE_ROOTS: &[&str] = &[
+    "rnbqkbnr/pppp1ppp/8/4p3/6P1/5P2/PPPPP2P/RNBQKBNR b KQkq - 0 2",
+    "6k1/5ppp/8/8/8/8/8/R5K1 w - - 0 1",
+    "r1bqkb1r/pppp1ppp/2n2n2/4p2Q/2B1P3/8/PPPP1PPP/RNB1K1NR w KQkq - 4 4",
+    "7k/5Q2/5K2/8/8/8/8/8 w - - 0 1",
+    "k7/2Q5/1K6/8/8/8/8/8 w - - 0 1",
+    "6k1/5ppp/8/8/8/8/r4PPP/6K1 b - - 0 1",
+];
+
 fn step_strategy() -> impl Strategy<Value = Step> {
-    let nav = prop_oneof![5 => Just(0u8), 3 => Just(1u8), 2 => Just(2u8), 1 => Just(3u8), 1 => Just(4u8)];
+    let nav = prop_oneof![5 => Just(0u8), 3 => Just(1u8), 2 => Just(2u8), 1 => Just(3u8), 1 => Just(4u8), 1 => Just(5u8), 1 => Just(6u8), 2 => Just(7u8)];
     (nav, 0u8..4, vec(pick_strategy(), 0..4), any::<u16>(), prop_oneof![2 => 1u8..3, 3 => 3u8..5, 1 => 5u8..6]).prop_map(|(nav, back, picks, root, depth)| Step { nav, back, picks, root, depth })
 }
 
@@ -73,6 +91,33 @@ impl Line {
             p = p.make(m);
         }
     }
+    /// Forced cycle (perpetual check): X plays a, the only reply is b, X plays a', the only reply is b'
+    /// and the position is the same again; the line a b a' b' a leaves the opponent to move with exactly
+    /// one legal move, which is also its move of four plies ago (the move the repetition filter removes).
+    fn forced_cycle(&mut self) -> bool {
+        let p = self.pos();
+        for a in p.legal() {
+            let q1 = p.make(a);
+            let l1 = q1.legal();
+            if l1.len() != 1 {
+                continue;
+            }
+            let q2 = q1.make(l1[0]);
+            for a2 in q2.legal() {
+                let q3 = q2.make(a2);
+                let l3 = q3.legal();
+                if l3.len() != 1 {
+                    continue;
+                }
+                if q3.make(l3[0]) == p && self.moves.len() < 370 {
+                    self.moves.extend([a, l1[0], a2, l3[0], a]);
+                    return true;
+                }
+            }
+        }
+        false
+    }
+
     /// a-b-a-b: both sides move a piece out and back twice, if such moves exist
     fn shuffle(&mut self, pk: Pick) {
         for _ in 0..2 {
@@ -203,7 +248,8 @@ impl Hist {
         }
         for (i, st) in case.steps.iter().enumerate() {
             let mut repetition = false;
-            match st.nav % 5 {
+            let mut stop_after: Option<i64> = None;
+            match st.nav % 8 {
                 0 => line.extend(&st.picks),
                 1 => {
                     let k = (st.back as usize).min(line.moves.len());
@@ -220,6 +266,62 @@ impl Hist {
                     let idx = st.root as usize % CURATED.len();
                     line = Line { start: Pos::from_fen(CURATED[idx]).unwrap(), moves: Vec::new() };
                     line.extend(&st.picks);
+                }
+                5 => {
+                    // perpetual-check roots: a forced cycle from here, else from a curated perpetual position
+                    line.extend(&st.picks);
+                    if !line.forced_cycle() {
+                        let roots = PERPETUAL;
+                        line = Line { start: Pos::from_fen(roots[st.root as usize % roots.len()]).unwrap(), moves: Vec::new() };
+                        if st.back % 2 == 1 {
+                            // some history first, so that the table already knows the neighbourhood
+                            let _ = line.forced_cycle();
+                            line.moves.truncate(4);
+                        }
+                        repetition = line.forced_cycle();
+                    } else {
+                        repetition = true;
+                    }
+                    if repetition {
+                        ev.class("forced_cycle_roots");
+                    }
+                }
+                6 => {
+                    // dead-root hunt: search the position BEFORE a mating / stalemating move (depth 3-4, so the
+                    // dead position is an interior node of that search), then make the move and search the dead root
+                    line.extend(&st.picks);
+                    let mut p0 = line.pos();
+                    let mut killer = p0.legal().into_iter().find(|&m| p0.make(m).legal().is_empty());
+                    if killer.is_none() {
+                        line = Line { start: Pos::from_fen(MATE_ROOTS[st.root as usize % MATE_ROOTS.len()]).unwrap(), moves: Vec::new() };
+                        p0 = line.pos();
+                        killer = p0.legal().into_iter().find(|&m| p0.make(m).legal().is_empty());
+                    }
+                    if let (Some(k), None) = (killer, sess.as_ref()) {
+                        let g0 = engine_game(&line)?;
+                        let d0 = 3 + st.back % 3;
+                        let out = srch::run_search(&g0, &mut table, Some(d0), 30_000);
+                        if let Some(pn) = out.panicked {
+                            return Err(Fail::new("panic", format!("search of {} : {}", p0.fen4(), pn)));
+                        }
+                        let text0 = format!("position fen {} moves {}", line.start.fen6(), moves_text(&line.moves));
+                        self.judge_search(&p0, &text0, d0, &out.best, &out.lines, false, false, i, ev)?;
+                        line.moves.push(k);
+                        ev.class("dead_roots_after_a_search_of_the_parent");
+                    } else if let Some(k) = killer {
+                        if let Some(s) = sess.as_mut() {
+                            s.send(&format!("position fen {} moves {}", line.start.fen6(), moves_text(&line.moves)));
+                            s.send(&format!("go depth {}", 3 + st.back % 3));
+                            let _ = s.read_until(|l| l.starts_with("bestmove"), 20_000);
+                            s.send("wait");
+                        }
+                        line.moves.push(k);
+                        ev.class("dead_roots_after_a_search_of_the_parent");
+                    }
+                }
+                7 => {
+                    line.extend(&st.picks);
+                    stop_after = Some((st.root % 160) as i64);
                 }
                 _ => {
                     table.clear();
@@ -241,6 +343,45 @@ impl Hist {
                 None => {
                     let g = engine_game(&line)?;
                     let had = table.contains_key(&g.hash());
+                    if let Some(n) = stop_after {
+                        // a search of this position that is STOPPED after n node-entry polls also leaves entries
+                        // behind; afterwards every cached child / grandchild is searched as a root of its own
+                        srch::hooks::reset(n, false);
+                        let out = srch::run_search(&g, &mut table, Some((depth + 2).min(5)), 30_000);
+                        srch::hooks::reset(-1, false);
+                        if let Some(pn) = out.panicked {
+                            return Err(Fail::new("panic", format!("stopped search {} ({}): {}", i, history_text, pn)));
+                        }
+                        ev.class("stopped_searches_in_histories");
+                        let mut probes = 0;
+                        'probe: for m1 in p.legal() {
+                            let q1 = p.make(m1);
+                            let mut cands = vec![(vec![m1], q1.clone())];
+                            for m2 in q1.legal().into_iter().take(6) {
+                                cands.push((vec![m1, m2], q1.make(m2)));
+                            }
+                            for (path, q) in cands {
+                                let mut l2 = Line { start: line.start.clone(), moves: line.moves.clone() };
+                                l2.moves.extend(path.iter().copied());
+                                let g2 = engine_game(&l2)?;
+                                if !table.contains_key(&g2.hash()) || !search_friendly(&q) {
+                                    continue;
+                                }
+                                probes += 1;
+                                let d2 = 1 + (probes % 3) as u8;
+                                let text2 = format!("(after a search of {} stopped at poll {}) position fen {} moves {}", history_text, n, l2.start.fen6(), moves_text(&l2.moves));
+                                let o2 = srch::run_search(&g2, &mut table, Some(d2), 30_000);
+                                if let Some(pn) = o2.panicked {
+                                    return Err(Fail::new("panic", format!("{} : {}", text2, pn)));
+                                }
+                                self.judge_search(&q, &text2, d2, &o2.best, &o2.lines, true, false, i, ev)?;
+                                if probes >= 10 {
+                                    break 'probe;
+                                }
+                            }
+                        }
+                        ev.class_n("cached_descendants_probed_after_a_stopped_search", probes as u64);
+                    }
                     let out = srch::run_search(&g, &mut table, Some(depth), 30_000);
                     if let Some(pn) = out.panicked {
                         return Err(Fail::new("panic", format!("search {} ({} depth {}): {}", i, history_text, depth, pn)));
@@ -313,7 +454,7 @@ impl Prop for Hist {
     }
 
     fn rule(&self) -> String {
-        let common = "Cases (stateful): a start position and 1-8 steps; each step navigates the game (extend by generated picks / take back 0-3 plies and extend / add an a-b-a-b shuffle so that the repetition filter triggers / jump to another curated root / ucinewgame) and then searches the reached position to depth 1-5, all steps sharing ONE transposition table, in-process (get_best_move_until_stop on a game built with push_history) or, for about 1 history in 6, through the real binary (`position fen … moves …`, `go depth d`, `wait`). ";
+        let common = "Cases (stateful): a start position and 1-8 steps; each step navigates the game (extend by generated picks / take back 0-3 plies and extend / add an a-b-a-b shuffle so that the repetition filter triggers / jump to another curated root / ucinewgame / a forced four-ply cycle (perpetual check) so that the root has a single legal move which is also the move the repetition filter removes / search the parent of a mating or stalemating move to depth 3-5 and then the dead position itself / a search STOPPED by the hook after 0-159 polls followed by searches of every cached child and grandchild as roots of their own) and then searches the reached position to depth 1-5, all steps sharing ONE transposition table, in-process (get_best_move_until_stop on a game built with push_history) or, for about 1 history in 6, through the real binary (`position fen … moves …`, `go depth d`, `wait`). ";
         match self.which {
             Which::C06 => format!("{}Oracle: the announced move is a legal move of the reference model's position; no move is announced iff the model has no legal move. evaluations = searches judged. Non-trivial search: the table already held an entry for the root when the search started, or the root has 1-2 legal moves, or a repetition pattern is present in the game record; distinct by (history, depth).", common),
             Which::C18 => format!("{}Oracle: every `info pv m1 … mk` line printed during a search of position P replays in the reference model: m1 legal in P, m2 legal in P·m1, … evaluations = pv lines judged. Non-trivial line: k >= 2 and the table held entries from an earlier search; distinct by (position, line).", common),
@@ -328,7 +469,7 @@ impl Prop for Hist {
     }
 
     fn cases(&self, tier: Tier) -> u32 {
-        tier.pick(1_600, 30_000)
+        tier.pick(6_000, 100_000)
     }
 
     fn shard_timeout_s(&self, tier: Tier) -> u64 {
